@@ -16,24 +16,40 @@ COORD_FAULTS = ["none", ("error", 15), ("error", 16), ("error", 14), ("error", 2
 class GroupFaults:
     """<= max_faults faults at one of the first max_requests group requests of the chosen kinds"""
 
-    def __init__(self, src, apis, max_requests, max_faults):
+    def __init__(self, src, apis, max_requests, max_faults, by_api=False):
         self.src, self.apis, self.max_requests, self.max_faults = src, apis, max_requests, max_faults
         self.seen = self.used = 0
         self.enabled = False
         self.log = []
+        # by_api: the fault hits the n-th request of one API from one client (reaches the requests of a re-join,
+        # which the "first k requests" placement never gets to because heartbeats use the budget up)
+        self.target = None
+        self.counts = {}
+        if by_api and max_faults and apis:
+            al = sorted(apis)
+            self.target = (al[src.choice("gfault_api", len(al))], 1 + src.choice("gfault_nth", 3), ["A", "B"][src.choice("gfault_client", 2)])
 
     def __call__(self, cluster, node, req, entry):
         if not self.enabled or req.API_KEY not in self.apis:
             return None
-        self.seen += 1
-        if self.seen > self.max_requests or self.used >= self.max_faults:
-            return None
+        if self.target is not None:
+            key = (entry["client"], req.API_KEY)
+            self.counts[key] = self.counts.get(key, 0) + 1
+            if self.used or (req.API_KEY, self.counts[key], entry["client"]) != self.target:
+                return None
+            self.seen = self.counts[key]
+        else:
+            self.seen += 1
+            if self.seen > self.max_requests or self.used >= self.max_faults:
+                return None
         # only error codes a Kafka coordinator returns for that API (GroupCoordinator.scala, 2.8)
         codes = {8: (14, 15, 16, 25, 22, 27), 9: (14, 16), 10: (15,), 11: (14, 15, 16, 25), 12: (15, 16, 25, 22, 27),
                  14: (15, 16, 25, 22, 27)}[req.API_KEY]
         menu = ["none"] + [("error", c) for c in codes] + ["drop_before", "timeout_before"]
         if req.API_KEY in (11, 12, 14):
             menu.append("wipe_state")  # coordinator failed over without the group's state
+        if self.target is not None:
+            menu = menu[1:]
         f = menu[self.src.choice(f"gfault{self.seen}", len(menu))]
         if f == "none":
             return None
@@ -62,7 +78,7 @@ def append_record(cluster, tp):
     log.prefill(R.encode_v2(i, recs), i, i, [(i, key, b"v", (), 1000 + i)])
 
 
-def standard_scenario(src, cfg, nmembers, event_times, quiet=3.0, fault_apis=(), max_fault_requests=0, max_faults=0):
+def standard_scenario(src, cfg, nmembers, event_times, quiet=3.0, fault_apis=(), max_fault_requests=0, max_faults=0, faults_by_api=False):
     """Members A (and B, C) join at chosen times; one membership event (stop / crash / nothing) hits one
     member at a chosen time; a background writer appends records; then a quiet period."""
     plan = {}
@@ -81,13 +97,15 @@ def standard_scenario(src, cfg, nmembers, event_times, quiet=3.0, fault_apis=(),
     plan["leaderless_until"] = [None, 0.36, 0.5][src.choice("leaderless_until", 3)] if cfg.get("vary_leaderless") else None
     plan["offset_fetch_delay"] = ([0.0, 0.3][src.choice("offset_fetch_delay", 2)]
                                   if plan["leaderless_until"] is not None else 0.0)
-    faults = GroupFaults(src, set(fault_apis), max_fault_requests, max_faults)
+    faults = GroupFaults(src, set(fault_apis), max_fault_requests, max_faults, by_api=faults_by_api)
     plan["faults"] = faults
+    plan["heartbeat_delay"] = [0.0, 0.45][src.choice("heartbeat_reply_takes", 2)] if cfg.get("vary_heartbeat_delay") else 0.0
 
     async def scenario(run, loop):
         run.cluster.fault_fn = faults
         run.plan = plan
         run.cluster.sync_delay = plan["sync_delay"]
+        run.cluster.heartbeat_delay = plan["heartbeat_delay"]
         run.cluster.offset_fetch_delay = plan["offset_fetch_delay"]
         if plan["leaderless_until"] is not None:
             # t-1 loses its leader just before the second member joins (so the rebalance hands it over
